@@ -161,3 +161,39 @@ Theorem C01_api_example :
   p_next (fold_left (api_state c) ops py_init) = 31 /\ p_written (fold_left (api_state c) ops py_init) = 6.
 Proof. exact api_example. Qed.
 Print Assumptions C01_api_example.
+
+(* ---- the round trip at the level of the public API: the reader (model of C08, exact-rational file
+   lookup) on the files the writer holds after ANY history of rf_write / rf_write_blocks calls returns
+   the canonical block list of the Spec map -- every accepted sample at its index, contiguous samples
+   as one block across files and subdirectories, split exactly at the gaps, nothing else.
+   Hypotheses on the configuration are those the constructors enforce (positive rate and cadences,
+   subdirectory cadence a multiple of the file cadence). *)
+From DRF Require Import Proofs.ApiRoundTrip.
+
+Theorem C01_api_roundtrip_gapped : forall c ops s e,
+  vcfg c -> 0 < c_sc c -> (c_sc c * 1000) mod c_fc c = 0 ->
+  c_chunk c = true -> c_cont c = false -> Forall api_arg_ok ops ->
+  read ExactRational (rc_of c) (map (to_rfile c) (all_files (p_w (fold_left (api_state c) ops py_init)))) s e
+  = runs (s_map (fold_left (api_spec_gapped c) ops spec_init)) s e.
+Proof. exact api_roundtrip_gapped. Qed.
+Print Assumptions C01_api_roundtrip_gapped.
+
+Theorem C01_api_roundtrip_continuous_chunked : forall c ops s e,
+  vcfg c -> 0 < c_sc c -> (c_sc c * 1000) mod c_fc c = 0 ->
+  c_chunk c = true -> c_cont c = true -> Forall api_arg_ok ops ->
+  read ExactRational (rc_of c) (map (to_rfile c) (all_files (p_w (fold_left (api_state c) ops py_init)))) s e
+  = runs (s_map (fold_left (api_spec_cont c) ops spec_init)) s e.
+Proof. exact api_roundtrip_continuous_chunked. Qed.
+Print Assumptions C01_api_roundtrip_continuous_chunked.
+
+(* un-chunked continuous layout: the reader returns the canonical blocks of what the files expose
+   (lookup_st), and refines_u says what that is: written samples, and the fill value in every other
+   slot of every file that holds a written sample -- the documented gap fill of continuous mode *)
+Theorem C01_api_roundtrip_continuous_unchunked : forall c ops s e,
+  vcfg c -> 0 < c_sc c -> (c_sc c * 1000) mod c_fc c = 0 ->
+  c_chunk c = false -> c_cont c = true -> Forall api_arg_ok ops ->
+  let st := p_w (fold_left (api_state c) ops py_init) in
+  read ExactRational (rc_of c) (map (to_rfile c) (all_files st)) s e = runs (lookup_st st) s e /\
+  refines_u c st (fold_left (api_spec_cont c) ops spec_init).
+Proof. exact api_roundtrip_continuous_unchunked. Qed.
+Print Assumptions C01_api_roundtrip_continuous_unchunked.
